@@ -340,3 +340,197 @@ func SetField(m *dynamicpb.Message, name string, v any) {
 		panic(fmt.Sprintf("SetField %T", v))
 	}
 }
+
+// ---- pool sweeps (directed boundary values; every pool element is reached deterministically) -----
+
+// keyExtraPool: map keys / strings that stress JSON string quoting (control characters outside the
+// short escapes, DEL, line separators, non-printable code points above the BMP).
+var keyExtraPool = []string{"\x1b", "\x07\x0b", "\x7f", "  ", "\U000E0001", "\x00", "a\"b\\c", "</script>", " "}
+
+// ScalarPool returns every boundary value of the pool for the field's kind.
+func ScalarPool(fd protoreflect.FieldDescriptor) []protoreflect.Value {
+	var out []protoreflect.Value
+	switch fd.Kind() {
+	case protoreflect.BoolKind:
+		out = append(out, protoreflect.ValueOfBool(true), protoreflect.ValueOfBool(false))
+	case protoreflect.StringKind:
+		for _, s := range strPool {
+			out = append(out, protoreflect.ValueOfString(s))
+		}
+		for _, s := range keyExtraPool {
+			out = append(out, protoreflect.ValueOfString(s))
+		}
+	case protoreflect.BytesKind:
+		for _, b := range bytesPool {
+			out = append(out, protoreflect.ValueOfBytes(b))
+		}
+	case protoreflect.EnumKind:
+		vals := fd.Enum().Values()
+		for i := 0; i < vals.Len(); i++ {
+			out = append(out, protoreflect.ValueOfEnum(vals.Get(i).Number()))
+		}
+	case protoreflect.Int32Kind, protoreflect.Sint32Kind, protoreflect.Sfixed32Kind:
+		for _, v := range i32Pool {
+			out = append(out, protoreflect.ValueOfInt32(int32(v)))
+		}
+	case protoreflect.Int64Kind, protoreflect.Sint64Kind, protoreflect.Sfixed64Kind:
+		for _, v := range i64Pool {
+			out = append(out, protoreflect.ValueOfInt64(v))
+		}
+	case protoreflect.Uint32Kind, protoreflect.Fixed32Kind:
+		for _, v := range u32Pool {
+			out = append(out, protoreflect.ValueOfUint32(uint32(v)))
+		}
+	case protoreflect.Uint64Kind, protoreflect.Fixed64Kind:
+		for _, v := range u64Pool {
+			out = append(out, protoreflect.ValueOfUint64(v))
+		}
+		out = append(out, protoreflect.ValueOfUint64(1<<63-1), protoreflect.ValueOfUint64(1<<63+1))
+	case protoreflect.FloatKind:
+		for _, v := range f32Pool {
+			out = append(out, protoreflect.ValueOfFloat32(float32(v)))
+		}
+	case protoreflect.DoubleKind:
+		for _, v := range f64Pool {
+			out = append(out, protoreflect.ValueOfFloat64(v))
+		}
+	}
+	return out
+}
+
+// strQuickPool: the strings of the quick-tier sweep (JSON quoting, escaping, separators, length).
+var strQuickPool = []string{"", "a b", "quote\"q", "back\\slash", "tab\tnl\n", "\x01\x7f", "\x1b", "\u2028", "\U000E0001", "<>&", "é日本\U0001F600", "%2F+&=", strings.Repeat("long", 75)}
+
+func kindGroup(fd protoreflect.FieldDescriptor) int {
+	switch fd.Kind() {
+	case protoreflect.FloatKind, protoreflect.DoubleKind:
+		return 1
+	case protoreflect.MessageKind, protoreflect.GroupKind:
+		return -1
+	}
+	return 0 // integers, bool, enum, strings, bytes
+}
+
+func sweepPool(fd protoreflect.FieldDescriptor, full bool) []protoreflect.Value {
+	if fd.Kind() == protoreflect.StringKind && !full {
+		var out []protoreflect.Value
+		for _, s := range strQuickPool {
+			out = append(out, protoreflect.ValueOfString(s))
+		}
+		return out
+	}
+	return ScalarPool(fd)
+}
+
+// SweepValues: directed boundary values.  Per kind group (floats; everything else) message k puts the k-th pool value of its kind into EVERY singular scalar field of that
+// group (groups are kept apart so that a value one codec refuses does not hide the others); lists and
+// maps get one message holding all pool values (as elements / values and, for maps, as keys).
+// full=true (thorough tier): the complete string pool, one message per (field, value) instead of the
+// packed form, and the same for the scalar fields of singular message-typed children.
+func SweepValues(md protoreflect.MessageDescriptor, full bool) ([]*dynamicpb.Message, []string) {
+	var out []*dynamicpb.Message
+	var labels []string
+	add := func(m *dynamicpb.Message, l string) { out = append(out, m); labels = append(labels, l) }
+	if md.FullName() == "google.protobuf.Timestamp" {
+		return nil, nil
+	}
+	fds := md.Fields()
+	inRealOneof := func(fd protoreflect.FieldDescriptor) bool {
+		o := fd.ContainingOneof()
+		return o != nil && !o.IsSynthetic()
+	}
+	if !full {
+		for grp := 0; grp < 2; grp++ {
+			maxLen := 0
+			for i := 0; i < fds.Len(); i++ {
+				fd := fds.Get(i)
+				if fd.IsMap() || fd.IsList() || inRealOneof(fd) || kindGroup(fd) != grp {
+					continue
+				}
+				if n := len(sweepPool(fd, false)); n > maxLen {
+					maxLen = n
+				}
+			}
+			for k := 0; k < maxLen; k++ {
+				m := dynamicpb.NewMessage(md)
+				for i := 0; i < fds.Len(); i++ {
+					fd := fds.Get(i)
+					if fd.IsMap() || fd.IsList() || inRealOneof(fd) || kindGroup(fd) != grp {
+						continue
+					}
+					pool := sweepPool(fd, false)
+					m.Set(fd, pool[k%len(pool)])
+				}
+				add(m, fmt.Sprintf("sweep-packed:g%d#%d", grp, k))
+			}
+		}
+	}
+	for i := 0; i < fds.Len(); i++ {
+		fd := fds.Get(i)
+		name := string(fd.Name())
+		switch {
+		case fd.IsMap():
+			kfd, vfd := fd.MapKey(), fd.MapValue()
+			// all pool keys (value: first pool value / empty message)
+			m := dynamicpb.NewMessage(md)
+			mp := m.Mutable(fd).Map()
+			for _, k := range sweepPool(kfd, full) {
+				if vfd.Kind() == protoreflect.MessageKind {
+					mp.Set(k.MapKey(), mp.NewValue())
+				} else {
+					mp.Set(k.MapKey(), ScalarPool(vfd)[0])
+				}
+			}
+			add(m, "sweep-keys:"+name)
+			if vfd.Kind() != protoreflect.MessageKind {
+				m := dynamicpb.NewMessage(md)
+				mp := m.Mutable(fd).Map()
+				keys := ScalarPool(kfd)
+				for j, v := range sweepPool(vfd, full) {
+					if kfd.Kind() == protoreflect.StringKind {
+						mp.Set(protoreflect.ValueOfString(fmt.Sprintf("k%02d", j)).MapKey(), v)
+					} else if j < len(keys) {
+						mp.Set(keys[j].MapKey(), v)
+					}
+				}
+				add(m, "sweep-values:"+name)
+			}
+		case fd.IsList():
+			if fd.Kind() == protoreflect.MessageKind {
+				continue
+			}
+			m := dynamicpb.NewMessage(md)
+			l := m.Mutable(fd).List()
+			for _, v := range sweepPool(fd, full) {
+				l.Append(v)
+			}
+			add(m, "sweep-list:"+name)
+		case fd.Kind() == protoreflect.MessageKind:
+			if !full || fd.Message().FullName() == "google.protobuf.Timestamp" {
+				continue
+			}
+			cfs := fd.Message().Fields()
+			for j := 0; j < cfs.Len(); j++ {
+				cf := cfs.Get(j)
+				if cf.IsMap() || cf.IsList() || cf.Kind() == protoreflect.MessageKind || cf.Kind() == protoreflect.StringKind {
+					continue
+				}
+				for k, v := range ScalarPool(cf) {
+					m := dynamicpb.NewMessage(md)
+					m.Mutable(fd).Message().Set(cf, v)
+					add(m, fmt.Sprintf("sweep-child:%s.%s#%d", name, cf.Name(), k))
+				}
+			}
+		default:
+			if !full && !inRealOneof(fd) {
+				continue // covered by the packed form
+			}
+			for k, v := range sweepPool(fd, full) {
+				m := dynamicpb.NewMessage(md)
+				m.Set(fd, v)
+				add(m, fmt.Sprintf("sweep:%s#%d", name, k))
+			}
+		}
+	}
+	return out, labels
+}
